@@ -73,8 +73,15 @@ func (r *ConsecutiveBlankLinesRule) Check(ctx *linter.Context) ([]linter.Violati
 	consecutiveCount := 0
 	startLine := 0
 
+	_, startsInCode := linter.LineMask(ctx.SQL)
+
 	for lineNum, line := range ctx.Lines {
 		trimmed := strings.TrimSpace(line)
+
+		// a blank line inside a multi-line literal or comment is content
+		if trimmed == "" && lineNum < len(startsInCode) && !startsInCode[lineNum] {
+			trimmed = "x"
+		}
 
 		if trimmed == "" {
 			if consecutiveCount == 0 {
@@ -137,9 +144,21 @@ func (r *ConsecutiveBlankLinesRule) Fix(content string, violations []linter.Viol
 	lines := strings.Split(content, "\n")
 	result := make([]string, 0, len(lines))
 
+	_, startsInCode := linter.LineMask(content)
+	blank := func(i int) bool {
+		if strings.TrimSpace(lines[i]) != "" {
+			return false
+		}
+		// a blank line inside a multi-line literal or comment is content
+		return i >= len(startsInCode) || startsInCode[i]
+	}
+
 	consecutiveCount := 0
-	for _, line := range lines {
-		trimmed := strings.TrimSpace(line)
+	for i, line := range lines {
+		trimmed := "x"
+		if blank(i) {
+			trimmed = ""
+		}
 
 		if trimmed == "" {
 			consecutiveCount++
